@@ -33,6 +33,9 @@ def replay_file(path, quiet=False):
     core.bootstrap()
     if hasattr(mod, 'worker_init'):
         mod.worker_init()
+    import gc
+    gc.collect()
+    gc.freeze()   # children forked per case must not traverse (and copy-on-write) the whole inherited heap in their collections
     res = isolate.run_isolated(mod.run_case, rec['case'], timeout=getattr(mod, 'CASE_TIMEOUT', 60.0) * 2)
     exp = rec.get('expect', {})
     same = res.get('verdict') == 'violation' and res.get('vclass') == exp.get('vclass')
